@@ -3,6 +3,7 @@
 package cache
 
 import (
+	"bytes"
 	"compress/gzip"
 	"crypto/sha256"
 	"encoding/gob"
@@ -233,14 +234,17 @@ func (bc *BuildCache) deserialize(c Cacheable, srcModTime time.Time, r io.Reader
 	if err != nil {
 		return buildTime, false, err
 	}
-	defer func() {
-		// This close checks the gzip checksum but does not close the given reader.
-		if closeErr := zr.Close(); err == nil {
-			err = closeErr
-		}
-	}()
+	defer zr.Close() // This close does not close the given reader.
 
-	gd := gob.NewDecoder(zr)
+	// The gzip checksum is only verified when the end of the stream is reached,
+	// and gob stops reading before that: decompress the whole entry first, so
+	// that nothing is ever decoded from a truncated or corrupted file.
+	data, err := io.ReadAll(zr)
+	if err != nil {
+		return buildTime, false, err
+	}
+
+	gd := gob.NewDecoder(bytes.NewReader(data))
 	if err := gd.Decode(&buildTime); err != nil {
 		return buildTime, false, err
 	}
